@@ -28,6 +28,7 @@ var hostPool = []string{
 	// the longest literals: eight full groups (39 characters), six groups and a dotted quad (up to 45)
 	"ffff:ffff:ffff:ffff:ffff:ffff:ffff:ffff", "ffff:ffff:ffff:ffff:ffff:ffff:255.255.255.255", "2001:0db8:85a3:0000:0000:8a2e:192.168.100.200", "0000:0000:0000:0000:0000:ffff:192.168.100.200",
 	"0000:0000:0000:0000:0000:0000:0000:0001", "2001:0db8:85a3:08d3:1319:8a2e:0370:7344", "ffff:ffff:ffff:ffff:ffff:ffff:255.255.255.2555", "ffff:ffff:ffff:ffff:ffff:ffff:ffff:ffff:ffff", "00000:0:0:0:0:0:0:1",
+	"[", "]", "[]", "[:", "[::", "::]", "[[::1]]", "[1.2.3.4]", "[", ":", ".", "%", "/",
 	"", "1:2:3:4:5:6:7:8:9", "1::2::3", ":::", "::g", "12345::1", "1:2:3:4:5:6:7", "::ffff:1.2.3", "::1.2.3.4.5", "1.2.3.4::", "2001:DB8::A", "::FFFF:1.2.3.4", "0:0:0:0:0:ffff:1.2.3.4",
 }
 
